@@ -12,6 +12,7 @@ import os
 import shutil
 import sys
 import tempfile
+import threading
 import time
 import traceback
 
@@ -44,6 +45,17 @@ def _work(item):
         res = {'errors': ['%s in item %r\n%s' % (type(e).__name__, item, traceback.format_exc())]}
     res['item'] = item
     res['wall'] = time.time() - t0
+    v = res.get('viol', [])
+    if len(v) > 60:         # keep the pipe to the parent small: the smallest cases of each (kind, cause) survive
+        v.sort(key=lambda x: len(repr(x.get('case'))))
+        keep, per = [], {}
+        for x in v:
+            k = (x.get('kind'), x.get('cause'))
+            per[k] = per.get(k, 0) + 1
+            if per[k] <= 12 and len(keep) < 60:
+                keep.append(x)
+        res['viol_dropped'] = len(v) - len(keep)
+        res['viol'] = keep
     return res
 
 
@@ -125,6 +137,19 @@ def main(argv=None):
         shutil.rmtree(scratch, ignore_errors=True)
 
 
+def _shutdown(pool):
+    """pool.terminate() can block for ever when workers are stuck writing large results: kill them first."""
+    import signal
+    for w in list(getattr(pool, '_pool', [])):
+        try:
+            os.kill(w.pid, signal.SIGKILL)
+        except (OSError, AttributeError):
+            pass
+    t = threading.Thread(target=lambda: (pool.terminate(), pool.join()), daemon=True)
+    t.start()
+    t.join(20)
+
+
 def run(mod, args, seed, t0, tree):
     prop, tier = mod.ID, args.tier
     deadline = args.deadline or getattr(mod, 'DEADLINE', {}).get(tier, 1500 if tier == 'quick' else 6 * 3600)
@@ -140,6 +165,7 @@ def run(mod, args, seed, t0, tree):
     done = 0
     capped = False
     n_new = 0
+    dropped = 0
     kf0 = known.Known(prop)
     ctx = mp.get_context('fork')
     jobs = max(1, min(args.jobs, n_items or 1))
@@ -166,14 +192,14 @@ def run(mod, args, seed, t0, tree):
                 if kf0.match(v) is None:
                     n_new += 1
             errors.extend(res.get('errors', []))
+            dropped += res.get('viol_dropped', 0)
             if 'extra' in res:
                 extra.append(res['extra'])
-            if len(errors) > 20 or n_new > 2000:
+            if len(errors) > 20 or n_new + dropped > 2000:
                 capped = True
                 break
     finally:
-        pool.terminate()
-        pool.join()
+        _shutdown(pool)
     fin = {}
     if hasattr(mod, 'finalize') and not errors:
         fin = mod.finalize(extra, tier, seed) or {}
@@ -225,7 +251,7 @@ def run(mod, args, seed, t0, tree):
         'counters': counters,
         'tree': tree,
         'known_findings_observed': [{'key': k, 'cases': n, 'what': e['what']} for k, (e, n, _) in sorted(seen_known.items())],
-        'new_violation_cases': len(new),
+        'new_violation_cases': len(new) + dropped,
     }
     if capped:
         cov['cap_hit'] = 'deadline %.0fs or error cap reached after %d/%d work items' % (deadline, done, n_items)
